@@ -120,19 +120,24 @@ def expectByte (c : UInt8) (bs : Bytes) : Except PErr Unit :=
   | [] => .error .invalidValue
 
 /-- the text between the second `-` and the line feed: `split(' ')`, a trailing CR of the last
-piece removed (`pieces[-1][-1]` on an empty last piece is an `IndexError`), the first piece is the
-software version, the rest — joined again — the comment -/
+piece removed, the first piece is the software version, the rest — joined again — the comment -/
 def bannerLine (line : Bytes) : Except PErr (SoftwareVersion × Option Bytes) :=
   let pieces := splitOnSpace line
   let last := pieces.getLastD []
-  match last.getLast? with
-  | none => .error (.crash "IndexError")
-  | some c =>
-    let last' := if c == 0x0d then last.dropLast else last
-    let pieces' := pieces.dropLast ++ [last']
-    match parseSoftwareVersion (pieces'.headD []) with
-    | .error e => .error e
-    | .ok sw => .ok (sw, if pieces'.length > 1 then some (joinItems 0x20 (pieces'.drop 1)) else none)
+  -- `pieces[-1].endswith('\r')` (repaired: `pieces[-1][-1]` was an `IndexError` on an empty last piece)
+  let last' := if last.getLast? == some 0x0d then last.dropLast else last
+  let pieces' := pieces.dropLast ++ [last']
+  match parseSoftwareVersion (pieces'.headD []) with
+  | .error e => .error e
+  | .ok sw => .ok (sw, if pieces'.length > 1 then some (joinItems 0x20 (pieces'.drop 1)) else none)
+
+/-- `parse_parsable('protocol_version', SshProtocolVersion)` inside `SshProtocolMessage._parse`: the
+bare `ValueError` of `SshVersion(major)` is translated to `InvalidValue` here (repaired);
+`SshProtocolVersion` parsed on its own still raises it -/
+def bannerVersion (bs : Bytes) : Except PErr ((Nat × Nat) × Nat) :=
+  match parseProtocolVersion bs with
+  | .error (.crash _) => .error .invalidValue
+  | r => r
 
 /-- `SshProtocolMessage._parse` -/
 def parseBanner (bs : Bytes) : Except PErr (Banner × Nat) :=
@@ -140,7 +145,7 @@ def parseBanner (bs : Bytes) : Except PErr (Banner × Nat) :=
   else if bs.take 3 != ssh then .error .invalidValue
   else do
     expectByte 0x2d (bs.drop 3)
-    let ((major, minor), nv) ← parseProtocolVersion (bs.drop 4)
+    let ((major, minor), nv) ← bannerVersion (bs.drop 4)
     expectByte 0x2d (bs.drop (4 + nv))
     let rest := bs.drop (5 + nv)
     let line := rest.takeWhile (· != 0x0a)
@@ -162,7 +167,9 @@ def composeBanner (b : Banner) : Except PErr Bytes := do
   let c := match b.comment with
     | none => []
     | some t => 0x20 :: t
-  pure (ssh ++ [0x2d] ++ v ++ [0x2d] ++ s ++ c ++ [0x0d, 0x0a])
+  let out := ssh ++ [0x2d] ++ v ++ [0x2d] ++ s ++ c ++ [0x0d, 0x0a]
+  -- repaired: more than the 255 bytes of RFC 4253 §4.2 is `TooMuchData`
+  if out.length > 255 then .error (.tooMuch ((out.length - 255 : Nat) : Int)) else pure out
 
 def bannerCodec : Codec Banner := ⟨parseBanner, composeBanner⟩
 
